@@ -239,14 +239,15 @@ def sizes_for(b, r):
 
 def jobs(tier):
     js = []
-    bound = 1 if tier == 'quick' else 2
+    bound = 2 if tier == 'quick' else 3
     for b in (4, 8):
         for r in (1, 2, 3):
             for size in sizes_for(b, r):
                 for sparse in (True, False):
                     for op in ('get', 'put', 'copy'):
                         for order in (('asc', 'desc') if r > 1 and size > b else ('asc',)):
-                            js.append((dict(op=op, size=size, b=b, r=r, sparse=sparse, wait_order=order), bound))
+                            bb = bound if (tier == 'thorough' or b == 4) else bound - 1
+                            js.append((dict(op=op, size=size, b=b, r=r, sparse=sparse, wait_order=order), bb))
     # bound 2 on a core subset in quick
     if tier == 'quick':
         for size in (9, 17):
@@ -375,7 +376,7 @@ def main(tier, seed):
             'deviation-bounded DFS; oracle = model file store; plus end-to-end get/put/copy of tmpfs sparse files '
             'with 1..129 (thorough 300) page-sized data extents through a real asyncssh SFTP server')
     return core.finish(PROP, tier, seed, 'model_checking', acc, t0, rule,
-                       {'jobs': len(js), 'deviation_bound': '1 (+2 on a core subset)' if tier == 'quick' else 2},
+                       {'jobs': len(js), 'deviation_bound': '2 (1 for block size 8)' if tier == 'quick' else 3},
                        assumptions=['SFTP v3 framing; the SSH layer below the SFTP client is replaced by an '
                                     'in-memory reader/writer (covered end-to-end in C09/C14)'])
 
